@@ -132,6 +132,10 @@ def run(chk, searching=False):
     chk.sample({"kind": good[0]["kind"], "program": good[0]["prog"][:6], "first_lines": [{k: o[k] for k in ("word", "ok", "own", "data", "changed", "backend")} for o in good[0]["lines"][:4]]})
     chk.sample({"facts_table": "coq/Gen/Facts.v regenerated from %s by harness/extract" % C.REPO})
 
+    if chk.tier == "thorough" and not searching:
+        import proto_selftest
+        proto_selftest.run(chk)
+
 
 def search(chk):
     run(chk, searching=True)
